@@ -168,10 +168,35 @@ def w_errors(ctx, rng, i):
     ctx.case(("err", i))
 
 
+def w_two_grids(ctx, rng, i):
+    """the same grating on two grids (sampling rate / carrier) and back."""
+    n = 256
+    x = make_input(rng, n, int(rng.integers(1, 3)))
+    kL, vdneff = float(rng.uniform(0.5, 5)), float(10 ** rng.uniform(-4.5, -3.3))
+    apo = str(rng.choice(["uniform", "gaussian", "rcos"]))
+    grids = [(4e10, 1550e-9), (1.6e11, 1550e-9), (4e10, 1310e-9), (8e10, 1560e-9)]
+    a, b = (grids[k] for k in rng.choice(len(grids), 2, replace=False))
+    ctx.describe(kL=kL, vdneff=vdneff, apodisation=apo, grid_sequence=[a, b, a])
+    Hs = []
+    for fs, wl in (a, b, a):
+        with core.quiet():
+            T.gv(sps=8, fs=fs, wavelength=wl)
+        out, H, cap = run_fbg(x, fc=T.gv.f0, vdneff=vdneff, kL=kL, apodization=apo)
+        R2 = np.abs(H) ** 2
+        apo_f = cap.get("apo")
+        integral = 1.0 if apo_f is None else quad(lambda z: float(apo_f(z)), -0.5, 0.5, limit=200)[0]
+        ctx.check("fbg.peak", abs(R2[n // 2] - np.tanh(kL * integral) ** 2) <= ODE, f"|H(f_Bragg)|^2 = {R2[n // 2]!r} vs tanh^2 = {np.tanh(kL * integral) ** 2!r} on grid fs={fs:.3g}, wavelength={wl:.4g} (sequence {[a, b, a]})")
+        ctx.check("fbg.passive", np.abs(H).max() <= 1 + ODE, "|H| exceeds one after a grid change")
+        Hs.append(H)
+    ctx.check("grid.history", np.max(np.abs(Hs[0] - Hs[2])) <= 1e-12, "FBG response on the first grid differs after a visit to another grid")
+    ctx.case(("grids", a, b, apo), sample=dict(kL=kL, vdneff=vdneff, grid_sequence=[a, b, a]) if i < 2 else None)
+
+
 WORKLOADS = [
     Workload("grating", w_grating, 500, 8000, budget=300),
     Workload("routes", w_routes, 40, 600, budget=300),
     Workload("errors", w_errors, 2, 8, budget=120),
+    Workload("two_grids", w_two_grids, 24, 600, budget=300),
 ]
 
 
